@@ -74,6 +74,30 @@ func (c *Ctx) Mine() bool {
 	return true
 }
 
+// MineShared assigns the next case index to every worker: the case is one large exploration whose
+// first-level subtrees are divided among the workers (exploreSharded).  owner reports whether
+// this worker is the one that counts and observes the case.
+func (c *Ctx) MineShared() (run, owner bool, shard, nshards int) {
+	i := c.idx
+	c.idx++
+	if c.stopped {
+		return false, false, 0, 1
+	}
+	if c.only >= 0 {
+		return i == c.only, i == c.only, 0, 1
+	}
+	if c.Stride > 1 && (i/int64(c.NShards))%c.Stride != 0 {
+		return false, false, 0, 1
+	}
+	owner = i%int64(c.NShards) == int64(c.Shard)
+	if owner && c.journal != nil {
+		fmt.Fprintf(c.journal, "%d\n", i)
+	}
+	// rotate the assignment of subtrees with the case index so that the root's first children
+	// (usually the largest subtrees) do not always land on the same workers.
+	return true, owner, (c.Shard + int(i)) % c.NShards, c.NShards
+}
+
 // Index returns the index of the case most recently handed out by Mine.
 func (c *Ctx) Index() int64 { return c.idx - 1 }
 
